@@ -4,7 +4,7 @@
    tag, an omitempty flag, a field type, the Merklize call sequence or the proof
    dispatch makes this file fail to compile (reported as a broken proof). *)
 From Coq Require Import ZArith List String Ascii Bool.
-From GSP Require Import Base.Prelude Codec.Desc Codec.Json Codec.Time Codec.Model Codec.JsonTheory
+From GSP Require Import Base.Prelude Value.Time Codec.Desc Codec.Json Codec.Time Codec.TimeTheory Codec.Model Codec.JsonTheory
   Codec.Theory Codec.Inst Generated.Structs.
 Import ListNotations.
 Open Scope string_scope.
@@ -31,7 +31,12 @@ Example custom_codecs_as_modelled :
   custom_codecs = [("Authentication", true, true); ("BJJSignatureProof2021", false, true);
                    ("CommonProof", false, true); ("CredentialProofs", false, true);
                    ("GistInfoProof", true, true); ("Iden3SparseMerkleProof", false, true);
-                   ("Iden3SparseMerkleTreeProof", false, true)].
+                   ("Iden3SparseMerkleTreeProof", false, true);
+                   ("IssuerData", false, true); ("RevocationStatus", false, true)].
+Proof. vm_compute. reflexivity. Qed.
+
+(* IssuerData.UnmarshalJSON: reflection decode of every member except "mtp" (decodeMTP) *)
+Example guarded_structs_as_modelled : guarded_structs = [("IssuerData", ["mtp"])].
 Proof. vm_compute. reflexivity. Qed.
 
 (* ---- the document does not depend on the proofs ---- *)
@@ -183,7 +188,6 @@ Section SupportedShape.
   Qed.
 
   Hypothesis renum_idem : forall n n', o_renum O n = Some n' -> o_renum O n' = Some n'.
-  Hypothesis time_rt : forall s t s', parse_time s = Some t -> format_time t = Some s' -> parse_time s' = Some t.
 
   (* C14_lossless *)
   Theorem cred_lossless j :
@@ -197,7 +201,7 @@ Section SupportedShape.
         (k <> "expirationDate" -> k <> "issuanceDate" -> jget_nn k d = jget_nn k r).
   Proof.
     intros Hs. apply w3c_supported_shape in Hs.
-    destruct (top_lossless O (cdec1 O repo_env) (cenc1 repo_env) renum_idem time_rt
+    destruct (top_lossless O (cdec1 O repo_env) (cenc1 repo_env) renum_idem time_roundtrip
                 merklize_deleted d_W3CCredential j w3c_side_conditions Hs) as (c & d & r & Hd & Hm & Hr & Hk).
     exists c, d, r. split; [exact Hd|]. split; [exact Hm|]. split; [exact Hr|].
     intros k. specialize (Hk k). rewrite w3c_time_keys in Hk. split.
@@ -220,14 +224,22 @@ Definition doc_equiv (d r : members) : Prop :=
 
 Theorem cred_same_root (R : Type) (mz : json -> R) O j :
   (forall n n', o_renum O n = Some n' -> o_renum O n' = Some n') ->
-  (forall s t s', parse_time s = Some t -> format_time t = Some s' -> parse_time s' = Some t) ->
   (forall d r, doc_equiv d r -> mz (JObj d) = mz (JObj r)) ->
   w3c_supported O j ->
   exists c d r, cred_decode O j = Ok c /\ cred_merklize_doc O c = Ok d /\
                 cred_reference_doc O j = Ok r /\ mz d = mz r.
 Proof.
-  intros H1 H2 Hmz Hs. destruct (cred_lossless O H1 H2 j Hs) as (c & d & r & Hd & Hm & Hr & Hk).
+  intros H1 Hmz Hs. destruct (cred_lossless O H1 j Hs) as (c & d & r & Hd & Hm & Hr & Hk).
   exists c, (JObj d), (JObj r). repeat split; try assumption. apply Hmz. exact Hk.
+Qed.
+
+(* two spellings related by same_time denote the same instant for the merklizer: the
+   parser of Value/Time.v (C04_time) gives the same (Unix seconds, nanoseconds) *)
+Theorem same_time_same_instant s s' t :
+  parse_time s = Some t -> parse_time s' = Some t ->
+  parse_rfc3339 (str_to_list s) = parse_rfc3339 (str_to_list s') /\ parse_rfc3339 (str_to_list s) <> None.
+Proof.
+  intros H1 H2. rewrite (parse_time_instant _ _ H1), (parse_time_instant _ _ H2). split; [reflexivity|discriminate].
 Qed.
 
 (* ---- non-vacuity: a concrete supported document (all optional members, dates with
@@ -296,3 +308,150 @@ Example ex_doc_evaluates :
   | _ => False
   end.
 Proof. vm_compute. repeat split; reflexivity. Qed.
+
+(* ==================================================================== *)
+(* C14_roundtrip on the descriptors of this run                         *)
+From GSP Require Import Codec.Roundtrip Codec.Known.
+
+(* side conditions, evaluated on the generated lists: no json.RawMessage / recursive
+   type, nested JSON names distinct up to case, CredentialProofs fields are omitempty *)
+Example w3c_rt_side : rt_kind (KStruct d_W3CCredential) = true. Proof. vm_compute. reflexivity. Qed.
+Example did_rt_side : rt_kind (KStruct d_DIDDocument) = true. Proof. vm_compute. reflexivity. Qed.
+Example cvm_rt_side : rt_kind (KStruct (pe_cvm repo_env)) = true. Proof. vm_compute. reflexivity. Qed.
+(* no omitempty field of W3CCredential is a slice or a map: every decoded credential is canonical *)
+Example w3c_nice : nice (KStruct d_W3CCredential) = true. Proof. vm_compute. reflexivity. Qed.
+
+Section RoundtripInst.
+  Variable O : oracles.
+  Hypothesis renum_idem : forall n n', o_renum O n = Some n' -> o_renum O n' = Some n'.
+  Hypothesis mtp_idem : forall j p, o_mtp O j = Some p -> p <> JNull /\ o_mtp O p = Some p.
+  Hypothesis mtp_gist : forall j pm t, o_mtp O j = Some (JObj pm) ->
+    o_mtp O (JObj (mins "type" (JStr t) (msort pm))) = Some (JObj pm) /\
+    (forall a, In a (keys pm) -> fold_eqb a "type" = false).
+  (* merkletree.Proof prints strings and booleans only: its output is already normal *)
+  Hypothesis mtp_normal : forall j p, o_mtp O j = Some p -> norm (o_renum O) p = Some p.
+
+  (* the three known proof structs through extractProof (Codec/Known.v), on the wire /
+     full descriptors of this run *)
+  Lemma known_rt : forall g pd a v e,
+    lookup_str g (pe_proofs repo_env) = Some pd -> norm (o_renum O) a = Some a -> dec_known O g pd a = Ok v ->
+    enc_proof repo_env v = Ok e -> extract_proof O repo_env e = Ok v.
+  Proof.
+    intros g pd a v e Hl Hn Hk He.
+    assert (Hkn : kn_kind (KStruct d_IssuerData) = true) by (vm_compute; reflexivity).
+    assert (Hni : nice (KStruct d_IssuerData) = true) by (vm_compute; reflexivity).
+    unfold repo_env in Hl. cbn [pe_proofs lookup_str] in Hl.
+    destruct (String.eqb "BJJSignatureProof2021" g) eqn:E1.
+    { apply String.eqb_eq in E1. subst g. inversion Hl. subst pd.
+      eapply (known_sig_rt O renum_idem mtp_idem mtp_normal d_IssuerData Hkn Hni
+                "BJJSignatureProof2021" "BJJSignature2021" repo_env); try eassumption; reflexivity. }
+    destruct (String.eqb "Iden3SparseMerkleProof" g) eqn:E2.
+    { apply String.eqb_eq in E2. subst g. inversion Hl. subst pd.
+      eapply (known_mtp_rt O renum_idem mtp_idem mtp_normal d_IssuerData Hkn Hni
+                "Iden3SparseMerkleProof" "Iden3SparseMerkleProof" repo_env); try eassumption; reflexivity. }
+    destruct (String.eqb "Iden3SparseMerkleTreeProof" g) eqn:E3; [|discriminate Hl].
+    apply String.eqb_eq in E3. subst g. inversion Hl. subst pd.
+    eapply (known_mtp_rt O renum_idem mtp_idem mtp_normal d_IssuerData Hkn Hni
+              "Iden3SparseMerkleTreeProof" "Iden3SparseMerkleTreeProof" repo_env); try eassumption; reflexivity.
+  Qed.
+
+  Theorem cred_roundtrip j c e :
+    cred_decode O j = Ok c -> cred_encode c = Ok e -> cred_decode O e = Ok c.
+  Proof.
+    apply (top_roundtrip_nice O repo_env renum_idem time_roundtrip mtp_idem mtp_gist cvm_rt_side known_rt
+             d_W3CCredential j c e w3c_rt_side w3c_nice).
+  Qed.
+
+  Theorem did_roundtrip j c e :
+    did_decode O j = Ok c ->
+    canon (ccanon1 repo_env) (KStruct d_DIDDocument) (VStruct c) ->
+    did_encode c = Ok e -> did_decode O e = Ok c.
+  Proof.
+    apply (top_roundtrip O repo_env renum_idem time_roundtrip mtp_idem mtp_gist cvm_rt_side known_rt
+             d_DIDDocument j c e did_rt_side).
+  Qed.
+End RoundtripInst.
+
+(* ---- non-vacuity of the round-trip theorems: oracles satisfying every hypothesis, and
+   the model evaluated on concrete documents ---- *)
+Definition ex_mtp_out : json := JObj [("existence", JBool true); ("siblings", JArr [])].
+Definition ex_oracles2 : oracles :=
+  {| o_renum := fun n => Some n;
+     o_mtp := fun j => match j with JObj _ => Some ex_mtp_out | _ => None end;
+     o_claim := fun _ => true; o_sig := fun _ => true |}.
+
+Example ex_oracles2_hyps :
+  (forall n n', o_renum ex_oracles2 n = Some n' -> o_renum ex_oracles2 n' = Some n') /\
+  (forall j p, o_mtp ex_oracles2 j = Some p -> p <> JNull /\ o_mtp ex_oracles2 p = Some p) /\
+  (forall j pm t, o_mtp ex_oracles2 j = Some (JObj pm) ->
+     o_mtp ex_oracles2 (JObj (mins "type" (JStr t) (msort pm))) = Some (JObj pm) /\
+     (forall a, In a (keys pm) -> fold_eqb a "type" = false)) /\
+  (forall j p, o_mtp ex_oracles2 j = Some p -> norm (o_renum ex_oracles2) p = Some p).
+Proof.
+  split; [intros n n' H; inversion H; reflexivity|].
+  split. { intros j p H. destruct j; simpl in H; inversion H. split; [discriminate|reflexivity]. }
+  split. { intros j pm t H. destruct j; simpl in H; inversion H. split; [reflexivity|].
+           intros a [<-|[<-|[]]]; reflexivity. }
+  intros j p H. destruct j; simpl in H; inversion H. vm_compute. reflexivity.
+Qed.
+
+Definition ex_cred2 : json :=
+  JObj [("@context", JArr [JStr "https://www.w3.org/2018/credentials/v1"]);
+        ("type", JArr [JStr "VerifiableCredential"]);
+        ("issuanceDate", JStr "2024-03-05T10:20:30.500+05:30");
+        ("credentialSubject", JObj [("b", JNum (NInt 2)); ("a", JStr "x")]);
+        ("issuer", JStr "did:example:issuer");
+        ("credentialSchema", JObj [("id", JStr "s"); ("type", JStr "T")]);
+        ("proof", JArr [
+           JObj [("type", JStr "BJJSignature2021");
+                 ("issuerData", JObj [("id", JStr "did:example:issuer");
+                                      ("state", JObj [("blockNumber", JNum (NInt 5)); ("value", JStr "ab")]);
+                                      ("mtp", JObj [("existence", JBool true); ("siblings", JArr [])])]);
+                 ("coreClaim", JStr "00"); ("signature", JStr "11")];
+           JObj [("type", JStr "Iden3SparseMerkleTreeProof"); ("issuerData", JObj []);
+                 ("coreClaim", JStr "00"); ("mtp", JNull)];
+           JObj [("type", JStr "FutureProof2030"); ("z", JNum (NInt 1))]])].
+
+Example ex_cred2_roundtrip :
+  match cred_decode ex_oracles2 ex_cred2 with
+  | Ok c => match cred_encode c with
+            | Ok e => cred_decode ex_oracles2 e = Ok c /\
+                      all_kinds c = ["BJJSignatureProof2021"; "Iden3SparseMerkleTreeProof"; "CommonProof"]
+            | _ => False end
+  | _ => False
+  end.
+Proof. vm_compute. split; reflexivity. Qed.
+
+Definition ex_did : json :=
+  JObj [("@context", JStr "https://www.w3.org/ns/did/v1"); ("id", JStr "did:example:123");
+        ("verificationMethod", JArr [
+           JObj [("id", JStr "did:example:123#state"); ("type", JStr "Iden3StateInfo2023");
+                 ("controller", JStr "did:example:123"); ("published", JBool true);
+                 ("info", JObj [("id", JStr "did:example:123"); ("state", JStr "ab")]);
+                 ("global", JObj [("root", JStr "cd");
+                                  ("proof", JObj [("type", JStr "Iden3SparseMerkleTreeProof");
+                                                  ("existence", JBool true); ("siblings", JArr [])])])]]);
+        ("authentication", JArr [JStr "did:example:123#key-1";
+                                 JObj [("id", JStr "did:example:123#key-2"); ("type", JStr "JsonWebKey2020");
+                                       ("controller", JStr "did:example:123")]])].
+
+Example ex_did_roundtrip :
+  match did_decode ex_oracles2 ex_did with
+  | Ok c => match did_encode c with
+            | Ok e => did_decode ex_oracles2 e = Ok c /\ all_kinds c = ["did"; "method"]
+            | _ => False end
+  | _ => False
+  end.
+Proof. vm_compute. split; reflexivity. Qed.
+
+(* the boundary of C14_did_roundtrip: an empty list member is decoded as an empty slice,
+   dropped by omitempty, and comes back as nil *)
+Example ex_did_empty_list_not_stable :
+  let j := JObj [("id", JStr "did:example:123"); ("service", JArr [])] in
+  match did_decode ex_oracles2 j with
+  | Ok c => match did_encode c with
+            | Ok e => exists c', did_decode ex_oracles2 e = Ok c' /\ c' <> c
+            | _ => False end
+  | _ => False
+  end.
+Proof. vm_compute. eexists. split; [reflexivity|discriminate]. Qed.
